@@ -1,7 +1,7 @@
 (* Entry points [sx -> sx] for the schema pipeline: decode a case, run the model, encode what the
    harness observes of the Go run. *)
 From Coq Require Import List ZArith Bool.
-From Verif Require Import Base.Sx Base.GoVal Base.F64 Schema.Ast Schema.Pipeline Schema.Simple Schema.Draft4 Schema.Classes.
+From Verif Require Import Base.Sx Base.GoVal Base.F64 Schema.Ast Schema.Pipeline Schema.Simple Schema.Draft4 Schema.Classes Schema.Helpers.
 Import ListNotations.
 Open Scope Z_scope.
 
@@ -123,6 +123,46 @@ Definition run_helper (s : sx) : sx :=
                | MNotPositive => L [A 0; A C_MULT_POSITIVE]
                end
       | _, _ => sx_err
+      end
+  | _ => sx_err
+  end.
+
+(* exported value helpers (C14): (horacles fn args...) -> (model answer, textbook answer); 0 = no error *)
+Definition run_h14 (s : sx) : sx :=
+  let b (x : bool) := A (if x then 1 else 0) in
+  match s with
+  | L (orc :: A fn :: args) =>
+      match get_horacles orc with
+      | None => sx_err
+      | Some ho =>
+          let N := flocq_ops in
+          match fn, args with
+          | 0, [A str; A n] => L [b (min_length ho str n); b (min_length ho str n)]
+          | 1, [A str; A n] => L [b (max_length ho str n); b (max_length ho str n)]
+          | 2, [A data; A pat] => L [b (pattern_h ho data pat); b (pattern_h ho data pat)]
+          | 3, [v] => match get_hval v with
+                      | Some v => L [b (unique_items_h N v); b (match v with HSlice _ _ l => has_dup_spec N l | _ => false end)]
+                      | None => sx_err
+                      end
+          | 4, [v; en; cs] =>
+              match get_hval v, getOpt (getList get_hval) en, getBool cs with
+              | Some v, Some en, Some cs =>
+                  L [b (enum_case ho N f_round32 v en cs);
+                     b (match en with None => false | Some vals => enum_spec ho N v vals cs end)]
+              | _, _, _ => sx_err
+              end
+          | 6, [A size; A n] => L [b (min_items size n); b (size <? n)]
+          | 7, [A size; A n] => L [b (max_items size n); b (n <? size)]
+          | 8, [v] => match get_hval v with Some v => L [b (required_h N v); b (required_h N v)] | None => sx_err end
+          | 9, [A str] => L [b (required_string str); b (Z.eqb str 0)]
+          | 10, [A f] => L [b (required_number N f); b (required_number N f)]
+          | 11, [op; v] => match getBool op, get_hval v with
+                           | Some op, Some v => L [b (read_only_h N op v); b (read_only_h N op v)]
+                           | _, _ => sx_err
+                           end
+          | 12, [A fmt; A data] => L [A (format_of ho fmt data); A (format_of ho fmt data)]
+          | _, _ => sx_err
+          end
       end
   | _ => sx_err
   end.
